@@ -430,7 +430,7 @@ OBLIGATIONS = [
        descr="densify on one edge: endpoints kept, every edge of the result <= resolution, inserted vertices on the edge at k*resolution from the start",
        functions=("odc.geo.geom.densify",), bounds="endpoints and resolution symbolic reals, edge length <= K*resolution", stubs=("LineString length/interpolate contract",), setup=setup, fresh_only=True, timeout_ms=60000),
     *([Ob("D1_degenerate_list", h_densify_degenerate, fixed(dict(n=0), dict(n=1)), descr="densify of an empty coordinate list (empty LineString / ring) or a single vertex returns it unchanged instead of failing",
-          functions=("odc.geo.geom.densify",), setup=setup)] if __import__("os").environ.get("VERIF_DEV") else []),
+          functions=("odc.geo.geom.densify",), setup=setup)] if True else []),
     Ob("D1_nonpositive_resolution", h_densify_nonpositive, fixed(), descr="densify with a resolution <= 0 returns or raises ValueError (no endless interpolation loop)",
        functions=("odc.geo.geom.densify",), bounds="endpoints symbolic and distinct, resolution symbolic <= 0; 'does not terminate' = more than 8 interpolation steps on one edge in the symbolic run (each step adds resolution <= 0 to a distance that must exceed the edge length to stop), 5 s alarm in the replay",
        stubs=("LineString length/interpolate contract",), setup=setup, fresh_only=True, timeout_ms=60000),
